@@ -193,7 +193,8 @@ def sm2_scalar(cx):
             P = Prov(tj, F); cn = Canon(tj, P)
             cps = sorted((FR.arg_canon(tj, P, cn, b, 0), FR.arg_canon(tj, P, cn, b, 1)) for b in FR.calls_of(tj, 'copy_from_slice'))
             cx.add('I-SCALAR', 'sm2/to_jacobi', cps == sorted([('zero().x', '$x'), ('zero().y', '$y'), ('zero().z', 'SM2_MODP_MONT_ONE')]) or
-                   [c[1] for c in cps] == sorted(['$x', '$y', 'SM2_MODP_MONT_ONE']), 'table coordinates become the Jacobian point (x, y, 1): %s' % cps, tj.loc())
+                   [c[1] for c in cps] == sorted(['$x', '$y', 'SM2_MODP_MONT_ONE']) or
+                   (not cps and [v for _, v in I.returns(tj, F, True)] == ['Point::Point{$x, $y, SM2_MODP_MONT_ONE}']), 'table coordinates become the Jacobian point (x, y, 1): %s' % cps, tj.loc())
 
 
 def sm9_scalar(cx):
